@@ -73,6 +73,10 @@ def gen_scenario(rng, idx):
     r2 = kernel.derive(sc["pairs_seed"], "ambient")
     if r2.random() < 0.35:
         mode["ctx"] = r2.choice(AMBIENT)
+    # the same call made through the function decorators (they catch and re-raise validation errors with their own context)
+    r3 = kernel.derive(sc["pairs_seed"], "via")
+    if spec["backend"] == "pandas" and spec["kind"] in ("dfs", "series") and r3.random() < 0.2:
+        mode["via"] = r3.choice(["check_input", "check_output"])
     return sc
 
 
@@ -143,6 +147,8 @@ def scenario_tags(sc):
         t.add("add_missing_columns")
     if mode.get("head") or mode.get("tail"):
         t.add("subsample")
+    if mode.get("via"):
+        t.add("via=" + mode["via"])
     return sorted(t)
 
 
@@ -159,6 +165,21 @@ def call_validate(subject, data, mode):
     for k in ("head", "tail", "sample", "random_state"):
         if mode.get(k) is not None:
             kw[k] = mode[k]
+    via = mode.get("via")
+    if via == "check_input":
+        import pandera as pa
+
+        @pa.check_input(subject, **kw)
+        def consumer(obj):
+            return obj
+        return consumer(data)
+    if via == "check_output":
+        import pandera as pa
+
+        @pa.check_output(subject, **kw)
+        def producer(obj):
+            return obj
+        return producer(data)
     return subject.validate(data, **kw)
 
 
@@ -400,6 +421,8 @@ def run_scenario(sc, plans=None, want_sample=False):
             scn.bump("probe.fault_in_lazy_call_that_also_has_data_errors")
         if scn.mode.get("ctx"):
             scn.bump("probe.fault_inside_callers_own_config_context")
+        if scn.mode.get("via"):
+            scn.bump("probe.fault_in_call_through_" + scn.mode["via"])
         n, kind, site, _ = st.fired[0]
         role = scn.roles.get(site, "check")
         posclass = "first" if n == 1 else ("last" if n == n_inv else "mid")
@@ -512,7 +535,7 @@ def shrink_candidates(payload):
             f = copy.deepcopy(fr)
             f["columns"].pop(i)
             yield emit(new_frame=f)
-    for key in ("head", "tail", "inplace", "ctx"):
+    for key in ("head", "tail", "inplace", "ctx", "via"):
         if sc["mode"].get(key):
             m = dict(sc["mode"])
             m[key] = None if key != "inplace" else False
